@@ -225,6 +225,8 @@ def mapped_nodemap(interp, fr, g, e, view):
     interp.assign(g.target, VTuple([VNode(a0), m.get(a0)]) if view.what == 'items' else m.get(a0), fr)
     n_h, n_pc = len(ctx.hyps), len(ctx.pc)
     ctx.solver.push()
+    was_nb = getattr(ctx, 'no_branch', False)
+    ctx.no_branch = True
     try:
         ctx.assume(m.dom(a0))
         conds = []
@@ -233,6 +235,7 @@ def mapped_nodemap(interp, fr, g, e, view):
             conds.append(z3.BoolVal(t_) if isinstance(t_, bool) else t_)
         val = interp.eval(e.elt, fr)
     finally:
+        ctx.no_branch = was_nb
         ctx.solver.pop()
         del ctx.hyps[n_h:]
         del ctx.hyp_cats[n_h:]
@@ -387,6 +390,8 @@ def symbolic_comprehension(interp, e, fr, it, what):
         n_h, n_pc = len(ctx.hyps), len(ctx.pc)
         ctx.solver.push()
         ctx.solver.add(member(c0))
+        was_nb = getattr(ctx, 'no_branch', False)
+        ctx.no_branch = True
         try:
             conds = []
             for cnd in g.ifs:
@@ -397,6 +402,7 @@ def symbolic_comprehension(interp, e, fr, it, what):
             else:
                 kv, vv = interp.eval(e.elt, fr), None
         finally:
+            ctx.no_branch = was_nb
             ctx.solver.pop()
             del ctx.hyps[n_h:]
             del ctx.hyp_cats[n_h:]
@@ -501,11 +507,14 @@ def mapped_adjacency_items(interp, fr, g, e, adj):
     was = getattr(interp, 'pure_calls', False)
     interp.pure_calls = True
     ctx.solver.push()
+    was_nb = getattr(ctx, 'no_branch', False)
+    ctx.no_branch = True
     try:
         ctx.assume(Row[a0])
         val = interp.eval(e.elt, fr)
     finally:
         interp.pure_calls = was
+        ctx.no_branch = was_nb
         ctx.solver.pop()
         del ctx.hyps[n_h:]
         del ctx.hyp_cats[n_h:]
@@ -533,6 +542,8 @@ def filtered_row(interp, fr, g, row):
         ctx.add_focus([b0])
         n_h = len(ctx.hyps)            # (the invariant for the pairs of b0 stays: it is a fact about an arbitrary node)
     ctx.solver.push()
+    was_nb = getattr(ctx, 'no_branch', False)
+    ctx.no_branch = True
     try:
         ctx.assume(Cells[b0] != 0)
         conds = []
@@ -541,6 +552,7 @@ def filtered_row(interp, fr, g, row):
             conds.append(z3.BoolVal(t_) if isinstance(t_, bool) else t_)
     finally:
         interp.pure_calls = was
+        ctx.no_branch = was_nb
         ctx.solver.pop()
         del ctx.hyps[n_h:]
         del ctx.hyp_cats[n_h:]
@@ -562,12 +574,15 @@ def filtered_int_seq(interp, fr, g, it):
     interp.assign(g.target, VInt(x0), fr)
     n_h, n_pc = len(ctx.hyps), len(ctx.pc)
     ctx.solver.push()
+    was_nb = getattr(ctx, 'no_branch', False)
+    ctx.no_branch = True
     try:
         conds = []
         for cnd in g.ifs:
             t_ = interp.truth(interp.eval(cnd, fr))
             conds.append(z3.BoolVal(t_) if isinstance(t_, bool) else t_)
     finally:
+        ctx.no_branch = was_nb
         ctx.solver.pop()
         del ctx.hyps[n_h:]
         del ctx.hyp_cats[n_h:]
